@@ -17,7 +17,9 @@ EXTENDS Split, TLC, Json
 CONSTANTS MaxLen, Method,     \* "phonetic" | "fixed"
           MaxLearn            \* longest class string run with a learned choice
 VARIABLE text
-Tokens == IF Method = "phonetic" THEN {"L*", "Q*", "N*", "C*", "B*"} ELSE {"k*", "Q*", "n*", "C*"}
+\* (fixed: k* a consonant, n* punctuation of the layout, s* an ASCII symbol the layout emits as it is and that is no punctuation
+\*  for the splitter - composed text and raw key text coincide)
+Tokens == IF Method = "phonetic" THEN {"L*", "Q*", "N*", "C*", "B*"} ELSE {"k*", "Q*", "n*", "C*", "s*"}
 Init == text = <<>>
 Next == Len(text) < MaxLen /\ \E t \in Tokens : text' = Append(text, t)
 Spec == Init /\ [][Next]_text
